@@ -12,6 +12,7 @@ import (
 	"os"
 	"sort"
 	"strings"
+	"sync"
 
 	incr "github.com/wcharczuk/go-incr"
 	"github.com/wcharczuk/go-incr/incrutil/mapi"
@@ -213,6 +214,7 @@ type edit struct {
 	M    map[int]int `json:"m,omitempty"`
 	Lo   int         `json:"lo,omitempty"`
 	Hi   int         `json:"hi,omitempty"`
+	Par  bool        `json:"par,omitempty"` // pass: ParallelStabilize (parallelism 4) instead of Stabilize
 }
 
 func (e edit) String() string {
@@ -233,6 +235,11 @@ func (e edit) String() string {
 		return fmt.Sprintf("bounds[%d,%d]", e.Lo, e.Hi)
 	case "select", "sobs", "sunobs":
 		return fmt.Sprintf("%s(%d)", e.Kind, e.K)
+	case "pass":
+		if e.Par {
+			return "parallel-pass"
+		}
+		return "pass"
 	case "inner":
 		return fmt.Sprintf("inner%d.Set(%d)", e.K, e.V)
 	case "base":
@@ -622,13 +629,39 @@ type simpleResult struct {
 	changedSteps int
 }
 
-func stabilize(g *incr.Graph) (err error) {
+const parallelism = 4
+
+func newGraph() *incr.Graph { return incr.New(incr.OptGraphParallelism(parallelism)) }
+
+// stabilize runs one pass with the stabilizer the history chose for it.
+func stabilize(g *incr.Graph, parallel bool) (err error) {
 	defer func() {
 		if r := recover(); r != nil {
 			err = fmt.Errorf("panic: %v", r)
 		}
 	}()
+	if parallel {
+		return g.ParallelStabilize(ctx)
+	}
 	return g.Stabilize(ctx)
+}
+
+// chooseStabilizers decides, from the seed, which stabilizer each pass of a history uses: a
+// quarter of the histories are all serial, a quarter all parallel, the rest mix them pass by pass.
+func chooseStabilizers(r *hx.Rand, edits []edit, rep *hx.Report) {
+	mode := r.Intn(4)
+	for i := range edits {
+		if edits[i].Kind != "pass" {
+			continue
+		}
+		edits[i].Par = mode == 1 || (mode >= 2 && r.Chance(1, 2))
+		if edits[i].Par {
+			rep.Count("stabilizer:ParallelStabilize(4)")
+		} else {
+			rep.Count("stabilizer:Stabilize")
+		}
+	}
+	rep.Count([]string{"history-stabilizers:all-serial", "history-stabilizers:all-parallel", "history-stabilizers:mixed", "history-stabilizers:mixed"}[mode])
 }
 
 func sameContents(a, b inputs) bool {
@@ -638,7 +671,7 @@ func sameContents(a, b inputs) bool {
 // runSimple builds a fresh graph and applies the edits to the real operator.
 func runSimple(spec opSpec, edits []edit) simpleResult {
 	var res simpleResult
-	w := &world{g: incr.New()}
+	w := &world{g: newGraph()}
 	w.left = incr.Var(w.g, pmap.New[int, int]())
 	w.right = incr.Var(w.g, pmap.New[int, int]())
 	w.goleft = incr.Var(w.g, map[int]int{})
@@ -713,7 +746,7 @@ func runSimple(spec opSpec, edits []edit) simpleResult {
 			}
 		case "pass":
 			before := incr.ExpertNode(w.node).NumRecomputes()
-			if err := stabilize(w.g); err != nil {
+			if err := stabilize(w.g, e.Par); err != nil {
 				res.fail = &failure{pass: i, what: "Stabilize failed: " + err.Error()}
 				return res
 			}
@@ -853,6 +886,30 @@ func genSimple(r *hx.Rand, spec opSpec, episodes int, rep *hx.Report) []edit {
 
 // ---------------------------------------------------------------- shrinking (delta debugging)
 
+func hasParallel(es []edit) bool {
+	for _, e := range es {
+		if e.Kind == "pass" && e.Par {
+			return true
+		}
+	}
+	return false
+}
+
+// reliably: a history with parallel passes only counts as failing when it fails three times in a
+// row, so that shrinking converges on histories that fail whatever the workers' interleaving.
+func reliably(es []edit, fails func([]edit) bool) bool {
+	n := 1
+	if hasParallel(es) {
+		n = 3
+	}
+	for i := 0; i < n; i++ {
+		if !fails(es) {
+			return false
+		}
+	}
+	return true
+}
+
 // shrink removes chunks of edits while the history still fails.
 func shrink(edits []edit, fails func([]edit) bool) []edit {
 	cur := append([]edit(nil), edits...)
@@ -931,7 +988,7 @@ func runSelector(e int, edits []edit, rep *hx.Report) selResult {
 			rep.Count(k)
 		}
 	}
-	g := incr.New()
+	g := newGraph()
 	input := incr.Var(g, pmap.New[int, int]())
 	sel := mapi.NewSelector(g, input, eqOf(e))
 	nodes := map[int]incr.Incr[int]{}
@@ -1024,7 +1081,7 @@ func runSelector(e int, edits []edit, rep *hx.Report) selResult {
 			}
 			reobserved = map[int]bool{}
 			seenAt = cloneMap(cur)
-			if err := stabilize(g); err != nil {
+			if err := stabilize(g, ed.Par); err != nil {
 				res.fail = &failure{pass: i, what: "Stabilize failed: " + err.Error()}
 				return res
 			}
@@ -1291,6 +1348,9 @@ type joinResult struct {
 	steps []selStep
 	vals0 []entry
 	fail  *failure
+	// the history as it was actually run: a pass that makes the join link a COMPUTED node is always
+	// run with the serial stabilizer (see the note in main), whatever the edit asked for
+	effective []edit
 	// features of the history, for classifying a failure
 	sharedInner bool // one inner node under two keys of the same outer map
 	movedInner  bool // one inner node under different keys in two consecutive versions the join read
@@ -1325,12 +1385,13 @@ func hasShared(m map[int]int) bool {
 // runJoin drives the real mapi.Join.  rep is nil for the runs of the shrinker.
 func runJoin(edits []edit, rep *hx.Report) joinResult {
 	var res joinResult
+	res.effective = append([]edit(nil), edits...)
 	count := func(k string) {
 		if rep != nil {
 			rep.Count(k)
 		}
 	}
-	g := incr.New()
+	g := newGraph()
 	inner := make([]incr.Incr[int], nInner)
 	vars := make([]incr.VarIncr[int], nVarInner)
 	vals := map[int]int{}
@@ -1346,10 +1407,14 @@ func runJoin(edits []edit, rep *hx.Report) joinResult {
 	var joinNode incr.INode
 	var joinRunsAtStart uint64
 	var early []int64
+	var hookMu sync.Mutex
 	lateRuns := 0
 	for i, d := range cdefs {
 		id := nVarInner + i
 		inner[id] = d.build(g, base[0], base[1], func() {
+			// under ParallelStabilize this runs on a worker goroutine
+			hookMu.Lock()
+			defer hookMu.Unlock()
 			if incr.ExpertNode(joinNode).NumRecomputes() == joinRunsAtStart {
 				early = append(early, int64(id))
 			} else {
@@ -1370,7 +1435,8 @@ func runJoin(edits []edit, rep *hx.Report) joinResult {
 	emit("JvObserve", nil)
 	read := map[int]int{} // the outer map as of the join's last recompute
 	baseWritten := map[int]bool{}
-	var fresh []int // computed nodes this pass links anew while their input changed
+	innerWritten := map[int]bool{} // inner vars written since the last pass
+	var fresh []int                // computed nodes this pass links anew while their input changed
 	outerSet := func() {
 		emit(fmt.Sprintf("JvSetOuter %s", entriesCoq(sortedEntries(cur))), nil)
 	}
@@ -1394,6 +1460,7 @@ func runJoin(edits []edit, rep *hx.Report) joinResult {
 			outerSet()
 		case "inner":
 			vars[ed.K].Set(ed.V)
+			innerWritten[ed.K] = true
 			emit(fmt.Sprintf("JvSetInner %d %d", ed.K, ed.V), nil)
 		case "base":
 			base[ed.K].Set(ed.V)
@@ -1415,6 +1482,31 @@ func runJoin(edits []edit, rep *hx.Report) joinResult {
 		case "pass":
 			fresh = nil
 			if observed {
+				// linked inner nodes (linked before this pass and still) that take a new value in it
+				changing := 0
+				for k, x := range cur {
+					if x0, ok := read[k]; !ok || x0 != x {
+						continue
+					}
+					if !isComputed(x) && innerWritten[x] {
+						changing++
+					}
+					if isComputed(x) && ((baseWritten[0] && dependsOn(x, 0)) || (baseWritten[1] && dependsOn(x, 1))) {
+						changing++
+					}
+				}
+				how := "Stabilize"
+				if ed.Par {
+					how = "ParallelStabilize"
+				}
+				switch {
+				case changing >= 3:
+					count("join-pass:3+-linked-inner-nodes-change-at-once:" + how)
+				case changing == 2:
+					count("join-pass:2-linked-inner-nodes-change-at-once:" + how)
+				case changing == 1:
+					count("join-pass:1-linked-inner-node-changes:" + how)
+				}
 				// what this pass asks of the join, for the histogram and the failure classes
 				if hasShared(cur) {
 					res.sharedInner = true
@@ -1457,11 +1549,24 @@ func runJoin(edits []edit, rep *hx.Report) joinResult {
 				}
 			}
 			joinRunsAtStart, early, lateRuns = incr.ExpertNode(j).NumRecomputes(), nil, 0
-			if err := stabilize(g); err != nil {
+			parallel := ed.Par
+			if parallel && observed {
+				for k, x := range cur {
+					if x0, ok := read[k]; isComputed(x) && (!ok || x0 != x) {
+						parallel = false // the join will link a computed node: serial only
+					}
+				}
+				if !parallel {
+					count("join-pass:parallel-pass-run-serially(the join links a computed node)")
+				}
+			}
+			res.effective[i].Par = parallel
+			if err := stabilize(g, parallel); err != nil {
 				res.fail = &failure{pass: i, what: "Stabilize failed: " + err.Error()}
 				return res
 			}
 			baseWritten = map[int]bool{}
+			innerWritten = map[int]bool{}
 			got := obs{pmEntries(j.Value())}
 			sort.Slice(early, func(a, b int) bool { return early[a] < early[b] })
 			emit("JvPass "+hx.ZList(early), &got)
@@ -1592,8 +1697,27 @@ func genJoin(r *hx.Rand, episodes, mode int, rep *hx.Report) []edit {
 		}
 		out = append(out, edit{Kind: "rebuild", M: cloneMap(cur)})
 	}
-	innerEdit := func() { out = append(out, edit{Kind: "inner", K: r.Intn(nVarInner), V: r.Intn(nVals)}) }
-	baseEdit := func(i int) { out = append(out, edit{Kind: "base", K: i, V: r.Intn(nVals)}) }
+	ival := map[int]int{}
+	for x := 0; x < nVarInner; x++ {
+		ival[x] = x + 1
+	}
+	bval := map[int]int{0: 1, 1: 2}
+	other := func(old int) int { // a value that differs from the current one, so that staleness shows
+		v := r.Intn(nVals)
+		for v == old {
+			v = r.Intn(nVals)
+		}
+		return v
+	}
+	writeInner := func(x int) {
+		ival[x] = other(ival[x])
+		out = append(out, edit{Kind: "inner", K: x, V: ival[x]})
+	}
+	innerEdit := func() { writeInner(r.Intn(nVarInner)) }
+	baseEdit := func(i int) {
+		bval[i] = other(bval[i])
+		out = append(out, edit{Kind: "base", K: i, V: bval[i]})
+	}
 	pass := func() {
 		out = append(out, edit{Kind: "pass"})
 		if observed {
@@ -1628,19 +1752,45 @@ func genJoin(r *hx.Rand, episodes, mode int, rep *hx.Report) []edit {
 	for ep := 0; ep < episodes; ep++ {
 		k := r.Intn(100)
 		switch {
-		case k < 12:
+		case k < 9:
 			rep.Count("episode:outer-edit")
 			outerEdit()
-		case k < 22:
+		case k < 16:
 			rep.Count("episode:inner-var-write")
 			innerEdit()
-		case k < 32:
+		case k < 23:
 			rep.Count("episode:base-var-write")
 			baseEdit(r.Intn(2))
-		case k < 57:
+		case k < 43:
 			rep.Count("episode:link-computed-node+write-its-input")
 			linkAndWrite()
-		case k < 72:
+		case k < 63:
+			// several linked inner nodes take new values in ONE pass: every one of them has to
+			// reach the join's pending list, whichever stabilizer runs the pass
+			rep.Count("episode:several-linked-inner-nodes-change-at-once")
+			if len(cur) < 2 {
+				outerEdit()
+				outerEdit()
+				outerEdit()
+				pass()
+			}
+			wroteBase := false
+			for _, en := range sortedEntries(cur) {
+				x := en.V
+				switch {
+				case !isComputed(x) && r.Chance(4, 5):
+					writeInner(x)
+				case isComputed(x) && !wroteBase && r.Chance(3, 4):
+					wroteBase = true
+					if dependsOn(x, 0) {
+						baseEdit(0)
+					}
+					if dependsOn(x, 1) && r.Chance(1, 2) {
+						baseEdit(1)
+					}
+				}
+			}
+		case k < 74:
 			rep.Count("episode:many-keys")
 			for n := r.Range(2, 6); n > 0; n-- {
 				switch r.Intn(4) {
@@ -1652,13 +1802,13 @@ func genJoin(r *hx.Rand, episodes, mode int, rep *hx.Report) []edit {
 					baseEdit(r.Intn(2))
 				}
 			}
-		case k < 80:
+		case k < 81:
 			rep.Count("episode:rebuilt-unrelated-map")
 			rebuild()
 			if r.Chance(1, 2) {
 				baseEdit(r.Intn(2))
 			}
-		case k < 84 || mode&1 == 0:
+		case k < 85 || mode&1 == 0:
 			rep.Count("episode:touch-or-nothing")
 		default:
 			rep.Count("episode:unobserve-edit-reobserve")
@@ -1774,6 +1924,7 @@ func main() {
 			r := rng.Fork()
 			spec := genSpec(r, kind)
 			edits := genSimple(r, spec, *episodes, rep)
+			chooseStabilizers(r, edits, rep)
 			res := runSimple(spec, edits)
 			rep.Evaluations++
 			rep.Count("op:" + kind)
@@ -1785,8 +1936,13 @@ func main() {
 			rep.Sizes[fmt.Sprintf("recomputes%02d", res.recomputes)]++
 			scheduleOff += res.schedule
 			if res.fail != nil {
-				small := shrink(edits, func(es []edit) bool { return runSimple(spec, es).fail != nil })
+				small := shrink(edits, func(es []edit) bool {
+					return reliably(es, func(es []edit) bool { return runSimple(spec, es).fail != nil })
+				})
 				f := runSimple(spec, small).fail
+				if f == nil { // interleaving-dependent: keep the history as it failed
+					small, f = edits, res.fail
+				}
 				report("mapi:"+kind, fmt.Sprintf("mapi.%s (%s): %s: got %v want %v after %v", kind, spec.coq, f.what, f.got, f.want, editStrings(small)),
 					map[string]any{"operator": kind, "params": spec.coq, "edits": small, "script": editStrings(small), "got": f.got.String(), "want": f.want.String()})
 			}
@@ -1814,13 +1970,19 @@ func main() {
 			e := []int{0, 0, 0, 1, 2}[r.Intn(5)] // mostly exact equality, where every rebind must show
 			rep.Count(fmt.Sprintf("selector-equal:%s", []string{"exact", "nil", "coarse"}[e]))
 			edits := genSelector(r, *episodes+4, rep)
+			chooseStabilizers(r, edits, rep)
 			res := runSelector(e, edits, rep)
 			rep.Evaluations++
 			rep.Count("op:Selector")
 			rep.Count("oracle:plain-definition")
 			if res.fail != nil {
-				small := shrink(edits, func(es []edit) bool { return runSelector(e, es, nil).fail != nil })
+				small := shrink(edits, func(es []edit) bool {
+					return reliably(es, func(es []edit) bool { return runSelector(e, es, nil).fail != nil })
+				})
 				f := runSelector(e, small, nil).fail
+				if f == nil { // interleaving-dependent: keep the history as it failed
+					small, f = edits, res.fail
+				}
 				report("mapi:Selector", fmt.Sprintf("mapi.Selector (equal kind %d): %s: got %v want %v after %v", e, f.what, f.got, f.want, editStrings(small)),
 					map[string]any{"operator": "Selector", "equal": e, "edits": small, "script": editStrings(small), "got": f.got.String(), "want": f.want.String()})
 			}
@@ -1846,6 +2008,7 @@ func main() {
 			r := rng.Fork()
 			mode := i % 8
 			edits := genJoin(r, *episodes+4, mode, rep)
+			chooseStabilizers(r, edits, rep)
 			res := runJoin(edits, rep)
 			rep.Evaluations++
 			rep.Count("op:Join")
@@ -1855,11 +2018,17 @@ func main() {
 				rep.Count(fmt.Sprintf("join-failing-histories:unobserve=%v,assignment=%s", mode&1 != 0, joinAssignments[mode/2]))
 				// a smaller history must not bring in a feature the original did not have
 				small := shrink(edits, func(es []edit) bool {
-					c := runJoin(es, nil)
-					return c.fail != nil && c.features()&^res.features() == 0
+					return reliably(es, func(es []edit) bool {
+						c := runJoin(es, nil)
+						return c.fail != nil && c.features()&^res.features() == 0
+					})
 				})
 				sres := runJoin(small, nil)
 				f := sres.fail
+				if f == nil { // interleaving-dependent: keep the history as it failed
+					small, sres, f = edits, res, res.fail
+					rep.Count("join-failure-not-reproduced-on-rerun(interleaving-dependent)")
+				}
 				// the two known-finding classes first, so that their patterns keep matching
 				key := "mapi:Join"
 				if sres.sharedInner {
@@ -1883,6 +2052,7 @@ func main() {
 						break
 					}
 				}
+				small = sres.effective
 				report(key, fmt.Sprintf("mapi.Join: %s: got %v want %v after %v (innerN starts at N+1)", f.what, f.got, f.want, joinStrings(small)),
 					map[string]any{"operator": "Join", "edits": small, "script": joinStrings(small), "got": f.got.String(), "want": f.want.String(),
 						"note": "inner0..inner7 are vars starting at 1..8; inner8..inner15 are Map/Map2 nodes over base0 (starts 1) and base1 (starts 2) with value a*base0+b*base1+c, (lazy,a,b,c) = " + cdefsCoq() + "; the join is observed from the start; {k v} pairs are (key, value)"})
